@@ -34,6 +34,13 @@ type Case struct {
 	// RawData: both states get the no-app and these data values (a state of an
 	// app-less channel may carry data: the no-app admits every transition)
 	RawData *[2]uint64 `json:"rawdata,omitempty"`
+	// BackendWrap: one asset's backend id of w is changed to a value that is
+	// congruent to v's modulo 2^32 (1: +2^32, 2: -2^32; the wire format has 32
+	// bits for it).  Such a state is refused by the encoder - outside the
+	// domain - unless an encoder truncates: then two unequal states share an
+	// encoding and a signature.
+	BackendWrap int `json:"backendwrap,omitempty"`
+	WrapAt      int `json:"wrapat,omitempty"`
 }
 
 func drawCase(t *rapid.T) Case {
@@ -50,6 +57,10 @@ func drawCase(t *rapid.T) Case {
 	}
 	c.Signer = rapid.IntRange(0, 3).Draw(t, "signer")
 	c.Other = rapid.IntRange(0, 3).Draw(t, "other")
+	if rapid.IntRange(0, 19).Draw(t, "backendwrap") == 0 {
+		c.BackendWrap = rapid.IntRange(1, 2).Draw(t, "wrapkind")
+		c.WrapAt = rapid.IntRange(0, 7).Draw(t, "wrapat")
+	}
 	if rapid.IntRange(0, 9).Draw(t, "rawdata") == 0 {
 		a := uint64(rapid.IntRange(0, 3).Draw(t, "d0"))
 		b := a
@@ -107,6 +118,15 @@ func runCase(c Case) *h.Outcome {
 			} else {
 				o.Class("app-less-states-with-data")
 			}
+		}
+		if c.BackendWrap != 0 && len(w.Backends) > 0 {
+			i := c.WrapAt % len(w.Backends)
+			if c.BackendWrap == 1 {
+				w.Backends[i] += 1 << 32
+			} else {
+				w.Backends[i] -= 1 << 32
+			}
+			o.Class("backend-id-wrapped-by-2^32")
 		}
 		ev, err1 := enc(v)
 		ew, err2 := enc(w)
